@@ -422,6 +422,31 @@ class Prov:
                 out.add(lab)
         return out
 
+    def _closure_return_struct(self, body, env, arg_op, other_labs):
+        """Like _closure_return, but per field path of the closure's return value."""
+        pl = self._op_place(arg_op)
+        if pl is None:
+            return []
+        l = pl["l"]
+        adt = body.locals[l].get("adt")
+        cb = self.facts.body(adt) if adt else None
+        if cb is None or cb.kind != "Closure":
+            return []
+        cenv = self.env(cb)
+        res = []
+        for q, labs in list(cenv.env.get(0, {}).items()):
+            out = set()
+            for lab in labs:
+                if lab[0] == "upvar":
+                    base = env.read(l, (lab[1],))
+                    out |= {_extend(b, lab[2]) for b in base}
+                elif lab[0] == "param":
+                    out |= other_labs
+                else:
+                    out.add(lab)
+            res.append((q, out))
+        return res
+
     def _call(self, body, env, bi, t):
         dest = t["dest"]
         targets = self._targets(body, env, dest)
@@ -450,6 +475,12 @@ class Prov:
                                 env.changed = True
                 return
         call_lab = ("call", name, ())
+        # 1b. constructors whose result fields are their arguments
+        if re.search(r"ops::RangeInclusive::<Idx>::new$", gen) and len(args) == 2:
+            for (tl, tp) in targets:
+                self._copy_operand(body, env, tl, tp + ("start",), args[0])
+                self._copy_operand(body, env, tl, tp + ("end",), args[1])
+            return
         # 2. crate-local callee with a body
         cb = self.facts.body(t.get("res") or "") or self.facts.body(t.get("def") or "")
         if cb is not None and cb.id not in self._inprogress:
@@ -460,11 +491,14 @@ class Prov:
                     if lab[0] == "param" and 1 <= lab[1] <= len(args):
                         base_op = args[lab[1] - 1]
                         pl = self._op_place(base_op)
-                        if pl is not None:
-                            base = self._read_place(body, env, {"l": pl["l"], "p": pl["p"]})
+                        is_up = pl is not None and pl["l"] == 1 and body.kind == "Closure" and place_fields(pl)[:1] and place_fields(pl)[0].startswith("upvar:")
+                        if pl is not None and not is_up:
+                            # structural copy: keeps the field structure of the argument
+                            for (tl, tp) in targets:
+                                env.copy(tl, tp + q, pl["l"], place_fields(pl) + tuple(lab[2]))
                         else:
                             base = self._read_operand(body, env, base_op)
-                        sub |= {_extend(b, lab[2]) for b in base}
+                            sub |= {_extend(b, lab[2]) for b in base}
                     else:
                         sub.add(lab)
                 for (tl, tp) in targets:
@@ -512,8 +546,15 @@ class Prov:
                 is_cl = cbb is not None and cbb.kind == "Closure"
             if not is_cl:
                 non_closure |= al
+        payload_map = re.search(r"(option::Option|result::Result)::<.*>::(map|and_then)$", gen) is not None
         for a in args:
-            labs |= self._closure_return(body, env, a, non_closure)
+            if payload_map:
+                # the closure's return value is the payload of the result: keep its structure
+                for q, cl in self._closure_return_struct(body, env, a, non_closure):
+                    for (tl, tp) in targets:
+                        env.write(tl, tp + ("0",) + q, cl)
+            else:
+                labs |= self._closure_return(body, env, a, non_closure)
         for (tl, tp) in targets:
             env.write(tl, tp, labs)
         # weak update of &mut arguments with the other arguments' origins
